@@ -9,5 +9,6 @@ CONSTANTS
   Boxes <- BoxesQ1
   KConv = 1000
   KConvX = 10
+  KGap = 100
 INVARIANTS TypeOK MetaSchedule Descent ReportConsistent Budget FeasibleAlways Converged Bracketed Protocol HeldDescends
 CHECK_DEADLOCK FALSE
